@@ -485,6 +485,71 @@ fn db_layer(tier: Tier, slow: &Path, fast: &Path) -> Report {
 fn rotation_layer(tier: Tier, fast: &Path) -> Report {
     use grafeo_common::types::Value;
     let mut rep = Report::new("C05", tier, "model_checking");
+    // large records below the rotation threshold: a record of any size the log accepted must come back (and so must
+    // everything logged behind it, in this session and in the next one)
+    for mib in tier.pick(vec![1usize, 17], vec![1, 15, 17, 33]) {
+        let dir = fast.join("big");
+        let _ = std::fs::remove_dir_all(&dir);
+        let name = format!("large-record-{mib}MiB");
+        let dump = |db: &grafeo_engine::GrafeoDB| -> BTreeSet<String> {
+            let mut s = BTreeSet::new();
+            for n in db.iter_nodes() {
+                s.insert(format!("n|{}", n.id.as_u64()));
+                for (k, v) in n.properties.iter() {
+                    s.insert(format!("p|{}|{}|{}", n.id.as_u64(), k.as_str(), match v {
+                        Value::String(x) if x.len() > 100 => format!("string of {} bytes", x.len()),
+                        o => canon(o),
+                    }));
+                }
+            }
+            s
+        };
+        let mut cycle = |step: &str, f: &dyn Fn(&grafeo_engine::GrafeoDB)| {
+            let db = match open_db(&dir, Mode::NoSync) {
+                Ok(db) => db,
+                Err(e) => {
+                    rep.violation(Violation::new(&[("layer", "database"), ("kind", "open-fails"), ("op-kind", "large-record")], json!({"layer": "rotation", "variant": name, "step": step}), format!("open failed at step {step}: {e}")));
+                    return None;
+                }
+            };
+            let seen = dump(&db);
+            f(&db);
+            let left = dump(&db);
+            db.close().unwrap_or_else(|e| vcore::machinery_failure(&format!("close: {e}")));
+            Some((seen, left))
+        };
+        let s1 = cycle("write", &|db| {
+            let a = db.create_node(&["A"]);
+            db.set_node_property(a, "small", Value::Int64(1));
+            db.set_node_property(a, "big", Value::String("x".repeat(mib * 1024 * 1024 + 16).into()));
+            let b = db.create_node(&["B"]);
+            db.set_node_property(b, "after", Value::Int64(2));
+        });
+        let s2 = cycle("second-session", &|db| {
+            let c = db.create_node(&["C"]);
+            db.set_node_property(c, "later", Value::Int64(3));
+        });
+        let s3 = cycle("third-session", &|_db| {});
+        rep.evaluations += 3;
+        rep.transitions += 7;
+        rep.traces_validated += 1;
+        rep.nontrivial(&("large-record", mib));
+        rep.add("large_record_histories", 1);
+        for (step, prev, cur) in [("first-reopen", &s1, &s2), ("second-reopen", &s2, &s3)] {
+            if let (Some((_, left)), Some((seen, _))) = (prev, cur) {
+                if left != seen {
+                    let lost: Vec<_> = left.difference(seen).cloned().collect();
+                    let extra: Vec<_> = seen.difference(left).cloned().collect();
+                    rep.violation(Violation::new(
+                        &[("layer", "database"), ("kind", "lost-after-reopen"), ("op-kind", "large-record"), ("effect", if lost.is_empty() { "extra" } else { "lost" }), ("mode", "nosync")],
+                        json!({"layer": "rotation", "variant": name, "step": step}),
+                        format!("a {mib} MiB property record (below the 64 MiB rotation threshold): at the {step} close()+open() lost {lost:?} extra {extra:?}"),
+                    ));
+                }
+            }
+        }
+        let _ = std::fs::remove_dir_all(&dir);
+    }
     let variants: Vec<(&str, bool)> = tier.pick(vec![("close", false)], vec![("close", false), ("checkpoint-then-close", true)]);
     for (name, with_cp) in variants {
         let dir = fast.join("rot");
